@@ -358,6 +358,13 @@ def cycle(n, seed, binary, pattern=None):
         sample.update({"probes_after_restart": len(probes), "decoded_after_restart": decoded})
         if rc2 != 0 or any(w in log2 for w in ("panic:", "fatal error")):
             return "exit2=%s" % rc2, "fail:exit second stop: status %s: %s" % (rc2, log2[-300:].replace("\n", " | ")), sample
+        try:
+            received2 = st["IPFIX"]["UDPCount"] + st["NetflowV9"]["UDPCount"]
+        except (KeyError, TypeError):
+            received2 = None
+        if not unknown and decoded < len(probes) and (received2 is None or received2 < len(probes)):
+            # fewer probes arrived than were sent (loopback loss, or no counters to tell): nothing can be concluded
+            return "probes-lost", "", sample
         if unknown or decoded < len(probes):
             return "exit=0 restart-undecoded", "fail:restart %d data datagrams sent without templates after the restart, %d decoded, %d reported unknown" % (len(probes), decoded, unknown), sample
         for s in exps:
@@ -539,8 +546,18 @@ def redefinition_cycle(n, seed, binary, workers):
                 time.sleep(0.01)            # keep the socket buffer from overflowing
         s.close()
         time.sleep(0.5)
+        stats = vf.stats()
         rc, lat = vf.stop(signal.SIGTERM)
         log = vf.log()
+        try:
+            received = stats["IPFIX" if proto == "ipfix" else "NetflowV9"]["UDPCount"]
+        except (KeyError, TypeError):
+            received = None
+        sample["datagrams_received"] = received
+        if received is None or received < 2 * pairs:
+            # a datagram lost on the loopback (or no counters to tell): the announcement in front of a data set may be the
+            # lost one, so nothing can be concluded from this cycle
+            return "lost", "", sample
         seqkey = '"SequenceNo":' if proto == "ipfix" else '"SeqNum":'
         good = bad = 0
         first_bad = None
